@@ -84,6 +84,21 @@ def gen_cases(tier, seed):
             op = 'UploadPartCopy' if base['transfers'][0]['kind'] == 'copy' else 'UploadPart'
             s['plan'] = {'cancel': {'at': f't0/s3:{op}:{pn}#0', 'phase': 'after', 'how': 'future.cancel', 'from': 'main'}}
             cases.append(s)
+        # ... and while the MANAGER as a whole is told to stop (shutdown(cancel=True), a with-block left through an exception or Ctrl-C):
+        # every part request is held in flight (after its effect, before it returns) until the cancel has begun and everything else
+        # has come to rest
+        for pn in (1,):  # (the first part to get there: every part is held from then on, so a later one might never be reached)
+            for how in (('shutdown_cancel', 'with_exc', 'with_kbi') if not quick else (rng.choice(['shutdown_cancel', 'with_exc', 'with_exc', 'with_kbi']),)):
+                s = copy.deepcopy(base)
+                s['seed'] = rng.randrange(1 << 30)
+                op = 'UploadPartCopy' if base['transfers'][0]['kind'] == 'copy' else 'UploadPart'
+                s['mode'] = how
+                s['trigger'] = 'event'
+                s['cancel_msg'] = 'stop'
+                s['family'] = 'manager-cancel-parts-in-flight'
+                s['plan'] = {'cancel': {'at': f't0/s3:{op}:{pn}#0', 'phase': 'after', 'how': how, 'from': 'main'},
+                             'gate': {'match': f't0/s3:{op}', 'phase': 'after', 'after_cancel_begin': True, 'policy': 'seeded'}}
+                cases.append(s)
         # retried (forced) parts and create
         for at in ('t0/s3:CreateMultipartUpload#0', 't0/s3:CompleteMultipartUpload#0'):
             for ph in ('before', 'after'):
